@@ -1,3 +1,2 @@
-import Flatland.JsonUtil
-import Flatland.C05
-import Flatland.Spec.C05
+-- root of the model library: everything the driver can run
+import Flatland.Run.All
